@@ -225,20 +225,15 @@ example : HistCommitOK init (demo ++ finish) := by decide
 example : ∀ k ≤ (demo ++ finish).length, TalliesBounded (after init ((demo ++ finish).take k)) := by
   unfold TalliesBounded; decide
 
-/-- the hypothesis `HistCommitOK` of `njobs_exact` cannot be dropped: an update declared with 0 jobs and 2 groups, the
-second group created under a parent id (2) that does not exist — so it has only itself as ancestor — and a job sent into
-that group anyway (accepted: C08).  The root stages 0 jobs = declared 0, the commit is accepted and skips the group
-bookkeeping: group 3 keeps `n_jobs = 0` with one committed job under it. -/
-def wZero : List Op :=
-  [.createBatch 1 1 100, .createUpdate 1 200 0 2 1, .insertGroups 1 1 1 [⟨1, some 0, 0⟩, ⟨3, some 2, 0⟩],
-   .insertJobs 1 1 1 [⟨1, [], [], some 3, 0, false, 1000, 0⟩], .commitUpdate 1 1]
+/- The hypothesis `HistCommitOK` of `njobs_exact` (a commit of an update declared with ZERO jobs finds no job row of that
+update) used to be violable: the former witness `wZero` sent a job into an update declared with 0 jobs, which `_create_jobs`
+accepted.  Since the C08 repair `_create_jobs` rejects a job id outside `[1, n_jobs]` of its update (`specIdsOk` in the model),
+so such a bunch is answered 400 and writes nothing; every job row lies in the reserved range of its own update
+(`C08.accepted_ids_ok`), hence an update with `n_jobs = 0` has no job rows.  The hypothesis is kept in the statement because the
+lemmas are proved for arbitrary start states. -/
 
 instance (s : State) : Decidable (NJobsExact s) := by unfold NJobsExact; infer_instance
 
-example : ¬ HistCommitOK init wZero ∧ ¬ NJobsExact (after init wZero) ∧
-    (step (after init (wZero.take 4)) (.commitUpdate 1 1)).2 = .ok 0 ∧
-    ((after init wZero).groups.map fun g => (g.id, g.ancestors, g.nJobs)) = [(0, [0], 0), (1, [1, 0], 0), (3, [3], 0)] := by
-  decide
 example : NJobsExact (after init (demo ++ finish)) := by decide
 
 end HailVerif.C06
